@@ -52,6 +52,16 @@ func (c *checker) rpc(e *sim.Ev) {
 			return
 		}
 		r.recvSeq = e.Seq
+		if r.kind == "is" && e.B == 1 && r.dupOf == 0 {
+			// C12 progress: the leader learned that this snapshot is installed; sending
+			// the very same snapshot again and again without the follower advancing is a loop.
+			f := c.server(r.to)
+			k := fmt.Sprintf("%s>%s/%d@%d applied=%d", r.from, r.to, f.ep, r.c, f.applied)
+			c.installs[k]++
+			if c.installs[k] == 4 {
+				c.violate("C12", "reinstall-loop", e.Seq, "leader %s was told %d times that snapshot index %d is installed on %s and keeps sending it while %s's applied index stays %d: catch-up repeats the same transfer", r.from, c.installs[k], r.c, r.to, r.to, f.applied)
+			}
+		}
 		c.ext.recv(c, r, e)
 	case "r.drop":
 		c.cov("rpc-drop:" + e.X)
@@ -123,24 +133,29 @@ func (c *checker) candidateOK(d *Disk, cand string) bool {
 	return !any
 }
 
-// aeSatisfied: the follower's log holds (prev) and every entry sent.
+// aeSatisfied: the follower's history (snapshot + log) holds prev and every
+// entry sent. An index covered by a complete snapshot counts as held: what a
+// snapshot covers is committed history (checked separately by C11 / C02).
 func (c *checker) aeSatisfied(d *Disk, r *rpcRec) bool {
 	prevIdx, prevTerm := r.c, r.d
-	if prevIdx > 0 {
-		ok := false
-		if en, has := d.logs[prevIdx]; has && en.T == prevTerm {
-			ok = true
-		}
-		for _, sn := range d.snaps {
-			if sn.done && sn.index == prevIdx && sn.term == prevTerm {
-				ok = true
-			}
-		}
-		if !ok {
+	S := d.maxSnapIndex()
+	if prevIdx > 0 && prevIdx > S {
+		if en, has := d.logs[prevIdx]; !has || en.T != prevTerm {
 			return false
 		}
 	}
+	if prevIdx > 0 && prevIdx <= S {
+		// boundary: if the snapshot ends exactly there the terms must agree
+		for _, sn := range d.snaps {
+			if sn.done && sn.index == prevIdx && sn.term != prevTerm {
+				return false
+			}
+		}
+	}
 	for _, en := range r.ents {
+		if en.I <= S {
+			continue
+		}
 		have, has := d.logs[en.I]
 		if !has || have.T != en.T || have.P != en.P || have.Ty != en.Ty {
 			return false
@@ -214,11 +229,6 @@ func (c *checker) onResponse(r *rpcRec, e *sim.Ev) {
 	case "is":
 		if e.B == 1 {
 			c.cov("install-success")
-			k := fmt.Sprintf("%s/%d@%d", e.S, e.Ep, r.c)
-			c.installs[k]++
-			if c.installs[k] == 4 {
-				c.violate("C12", "reinstall-loop", e.Seq, "snapshot with index %d was installed successfully on %s %d times: catch-up repeats the same transfer", r.c, e.S, c.installs[k])
-			}
 		}
 	}
 	c.ext.resp(c, r, e)
